@@ -26,7 +26,12 @@ type Opts struct {
 }
 
 func nonFinalDone(rt *rapid.T, tok byte) rc.P {
-	st := uint16(rapid.SampledFrom([]int{rc.DoneMore, rc.DoneCount, rc.DoneMore | rc.DoneCount, rc.DoneProc, rc.DoneError, rc.DoneInxact, rc.DoneCount | rc.DoneProc, rc.DoneMore | rc.DoneError, rc.DoneEvent, 0x80}).Draw(rt, "donebits"))
+	// every single status bit of the low byte (0x20 is ATTN), frequent combinations, and now and
+	// then any non-zero combination of the 16 bits
+	st := uint16(rapid.SampledFrom([]int{rc.DoneMore, rc.DoneCount, rc.DoneMore | rc.DoneCount, rc.DoneProc, rc.DoneError, rc.DoneInxact, rc.DoneCount | rc.DoneProc, rc.DoneMore | rc.DoneError, rc.DoneEvent, 0x80, 0x20, 0x20, 0x20 | rc.DoneCount}).Draw(rt, "donebits"))
+	if rapid.IntRange(0, 9).Draw(rt, "anybits") == 0 {
+		st = uint16(rapid.IntRange(1, 0xffff).Draw(rt, "anydonebits"))
+	}
 	return rc.P{Done: &rc.Done{Tok: tok, Status: st, Tran: uint16(rapid.IntRange(0, 4).Draw(rt, "tran")), Count: int32(rapid.IntRange(0, 100000).Draw(rt, "count"))}}
 }
 
